@@ -1,4 +1,6 @@
+mod c02;
 mod c06;
+mod c07;
 mod util;
 
 use std::io::BufRead;
@@ -8,6 +10,12 @@ fn observe_line(line: &str) -> String {
     let mut it = line.split(' ');
     match it.next() {
         Some("trg") => c06::observe(&util::unhex(it.next().unwrap_or("-"))),
+        Some("adc") => c02::observe(&util::unhex(it.next().unwrap_or("-"))),
+        Some("cb") => c07::observe_whole(&util::unhex(it.next().unwrap_or("-"))),
+        Some("cbfeed") => {
+            let pieces: Vec<Vec<u8>> = it.next().unwrap_or("-").split(',').map(util::unhex).collect();
+            c07::observe_feed(&pieces)
+        }
         _ => "unknown-case".to_string(),
     }
 }
@@ -20,7 +28,9 @@ fn main() {
             let (prop, tier, seed, out) = (&args[2], &args[3], args[4].parse::<u64>().unwrap(), &args[5]);
             let mut sink = util::Sink::new(out);
             match prop.as_str() {
+                "C02" => c02::run(tier, seed, &mut sink),
                 "C06" => c06::run(tier, seed, &mut sink),
+                "C07" => c07::run(tier, seed, &mut sink),
                 _ => {
                     eprintln!("unknown property {prop}");
                     std::process::exit(2);
